@@ -170,6 +170,10 @@ type c02Op struct {
 	Configs    []c02JarConfig `json:"configs,omitempty"`
 	Resolver   []c02KidKey    `json:"resolver,omitempty"`
 	JarDefects []string       `json:"jar_defects,omitempty"`
+	// polload: the policy directory (policy/local.go), see zz_verif_c02pol_test.go
+	Dir     string        `json:"dir,omitempty"`
+	Entries []c02PolEntry `json:"entries,omitempty"`
+	Probes  []string      `json:"probes,omitempty"`
 	// introspect / probe / advance
 	Token    string `json:"token,omitempty"`
 	Extended bool   `json:"extended,omitempty"`
@@ -1282,6 +1286,8 @@ func (w *c02World) exec(op *c02Op) string {
 		return w.execCode(op)
 	case "authz":
 		return w.execAuthz(op)
+	case "polload":
+		return w.execPolLoad(op)
 	}
 	return "bad-op:" + op.Op
 }
@@ -2994,6 +3000,8 @@ func TestVerifC02(t *testing.T) {
 				if rng.Intn(3) > 0 {
 					op.Ms = c02Advances[rng.Intn(9)]
 				}
+			case r >= 98:
+				op = g.polLoad()
 			default:
 				op = c02Op{Op: "probe", Store: "s2snonce", Key: "n0"}
 				if len(g.usedNonces) > 0 {
